@@ -37,6 +37,8 @@ def check(run, tier):
     run_calls(run, ps, batch=3000, nontrivial=lambda rec: rec["aknown"] and rec["bknown"] and rec["va"] > 0 and rec["vb"] > 0)
     progs = targeted.worklist_programs("evo") + targeted.naming_programs()
     progs += targeted.round2_programs("evo") + targeted.round2_programs("fluent")
+    from ..drivers import evo
+    progs += [p for p in evo.targeted_programs() if "compositions" in p["id"]]
     n = 200 if q else 4000
     for i in range(n):
         dev = "evo" if i % 2 == 0 else "fluent"
